@@ -109,6 +109,11 @@ def run(chk, replay=None):
         rc = pr.wait(timeout=60)
         chk.count()
         if rc == 0: chk.violate('CLI: closed output pipe reported success', {'rc': rc}, tags=['cli', 'silent', 'pipe'])
+    # the whole command (Model/Job.v: main.go's Run end to end) against the CLI on small worlds: exit status, file system and standard output
+    from vlib import joblib
+    jrng = random.Random(chk.seed * 7919 + 808)
+    jpool = [l for l, _ in streams.grammar_lines(jrng, 25, 0.1) + streams.fixture_lines()[:8]]
+    joblib.correspondence(chk, jrng, 160 if chk.tier == 'thorough' else 60, jpool)
     chk.sample({'log': [l[:120].decode('utf-8', 'replace') for l in logs[0]], 'faults': 'write k in 0..n x short in {0,1,17,all}; read at offsets'})
     chk.assumptions += ["gzip error detection (truncated / corrupt member, checksum) is the library's; the model treats the gzip reader as a reader that ends in a read error",
                         "bytes a device takes of a refused (short) write are outside the tool's control; they are the only non-whole-line bytes allowed",
